@@ -80,6 +80,8 @@ theorem C20_converge_scalar [DecidableEq α] (E : Sync.Env α) (w : World α) (p
 /-- The propagation reaches no trait twice (a function of the link tables). -/
 def NoRevisit (w : World α) (p : Pair) : Prop := (visit w.edges w.budget [] p).Nodup
 
+instance (w : World α) (p : Pair) : Decidable (NoRevisit w p) := by unfold NoRevisit; infer_instance
+
 /-- **Convergence of in-place list mutations** — `C05_replay` applied to the
 partner.  From any state with empty lock tables, `p` and `q` `List` traits, `q`
 a partner of `p` holding an equal list, the items handler registered on `p`:
@@ -272,7 +274,7 @@ replays this history on the implementation (corpus case 6). -/
 theorem C20_converge_list_fails_on_cycle : ¬ C20_converge_list_full := by
   intro h
   have := h idEnv triangle a b (.append 9) { items := [9], event := some ⟨.idx 0, [], [9]⟩ } ⟨.idx 0, [], [9]⟩
-    (by decide) (by decide) (by decide) (by decide) (by decide) (by decide) (by decide) (by decide) (by decide)
+    (by decide) (by decide) (by decide) (by decide) (by decide) (by rfl) (by rfl) (by decide) (by decide)
   revert this
   decide
 
@@ -304,7 +306,7 @@ and only if that partner is a `List` trait: after `a.sync_trait('l', b, 'x')`
 theorem C20_converge_list_fails_unhooked : ¬ C20_converge_list_unhooked := by
   intro h
   have := h idEnv unhooked a c (.append 1) { items := [1], event := some ⟨.idx 0, [], [1]⟩ } ⟨.idx 0, [], [1]⟩
-    (by decide) (by decide) (by decide) (by decide) (by decide) (by decide) (by decide) (by decide) (by decide)
+    (by decide) (by decide) (by decide) (by decide) (by rfl) (by rfl) (by decide) (by decide) (by decide)
   revert this
   decide
 
